@@ -362,15 +362,20 @@ def scan_batch(cases, root):
 # ------------------------------------------------------------------------------------------------------
 
 def run_translator(ctx):
-    try:
-        from translate import replace_offsets
-        res = replace_offsets.run()
-        ctx.count("translator:changed" if any(c for _, c in res) else "translator:unchanged")
-        flag = open(os.path.join(common.LEAN, "RModel/Gen/ReplaceOffsets.lean")).read()
-        return "Bool := true" in flag
-    except Exception as ex:   # noqa: BLE001 — a translator that cannot parse its source is a broken tie
-        ctx.broke("translator", "translate/replace_offsets.py", repr(ex))
-        return None
+    """regenerate Gen/ReplaceOffsets.lean and Gen/LineAfterColumn.lean from scanner.rs; returns the replace-offsets flag"""
+    flag = None
+    for mod, gen_file in (("replace_offsets", "ReplaceOffsets"), ("line_after_column", "LineAfterColumn")):
+        try:
+            m = __import__("translate." + mod, fromlist=["run"])
+            res = m.run()
+            ctx.count(f"translator:{mod}:" + ("changed" if any(c for _, c in res) else "unchanged"))
+            val = "Bool := true" in open(os.path.join(common.LEAN, f"RModel/Gen/{gen_file}.lean")).read()
+            ctx.cov[f"extracted:{gen_file}"] = val
+            if mod == "replace_offsets":
+                flag = val
+        except Exception as ex:   # noqa: BLE001 — a translator that cannot parse its source is a broken tie
+            ctx.broke("translator", f"translate/{mod}.py", repr(ex))
+    return flag
 
 
 def matcher_oracle(content, variants, line):
